@@ -1408,7 +1408,7 @@ impl<'cmd> Parser<'cmd> {
         debug!("Parser::remove_overrides: id={:?}", arg.id);
         for override_id in &arg.overrides {
             debug!("Parser::remove_overrides:iter:{override_id:?}: removing");
-            matcher.remove(override_id);
+            self.remove_overridden(override_id, matcher);
         }
 
         // Override anything that can override us
@@ -1422,7 +1422,16 @@ impl<'cmd> Parser<'cmd> {
         }
         for overrider_id in transitive {
             debug!("Parser::remove_overrides:iter:{overrider_id:?}: removing");
-            matcher.remove(overrider_id);
+            self.remove_overridden(overrider_id, matcher);
+        }
+    }
+
+    fn remove_overridden(&self, id: &Id, matcher: &mut ArgMatcher) {
+        if matcher.remove(id) {
+            // Its groups were marked as present on its behalf
+            for group in self.cmd.groups_for_arg(id) {
+                matcher.remove_from_group(&group, id);
+            }
         }
     }
 
